@@ -110,6 +110,9 @@ func c42Aligned(c vt.Case) bool {
 // middleware off, a query whose start or end is not a multiple of its step shares cache entries
 // with differently phased queries.
 func c42KF(c vt.Case) string {
+	if vt.Bool(c["meta"]) {
+		return ""
+	}
 	if !vt.Bool(c["align"]) && !c42Aligned(c) {
 		return "noalign-unaligned"
 	}
@@ -118,7 +121,13 @@ func c42KF(c vt.Case) string {
 
 func TestC42(t *testing.T) {
 	rnd := vt.Rand()
-	gen := func(yield func(vt.Case)) {
+	gen := func(yield0 func(vt.Case)) {
+		yield := func(c vt.Case) {
+			if _, ok := c["meta"]; !ok {
+				c["meta"] = false
+			}
+			yield0(c)
+		}
 		scale := func(tick int64, world any, T int64) (any, int64) {
 			var w []any
 			for _, s := range vt.List(world) {
@@ -271,9 +280,14 @@ func TestC42(t *testing.T) {
 			yield(vt.Case{"src": "rand-dash", "iv": iv, "align": align, "par": []int{1, 4}[rnd.Intn(2)],
 				"world": randWorld(rnd, span+1, 60000), "vunit": int64(1000), "hist": hist})
 		}
+		// ---- (d) phase 2: metadata requests and instant queries (c42meta_test.go) ----
+		c42MetaGen(t, rnd, yield, scale, randWorld)
 	}
 
 	vt.Run(t, gen, c42KF, func(c vt.Case) vt.Event {
+		if vt.Bool(c["meta"]) {
+			return c42MetaRun(t, c)
+		}
 		w := c42World(c["world"])
 		vunit := vt.Int64(c["vunit"])
 		down := &Downstream{Answer: func(r SubReq) []byte {
